@@ -22,7 +22,8 @@ RULE = ("case = one generated netlist (G-IR: 1-3 libraries, shared definitions i
         "unconnected pins, buses; named or partly unnamed) -> uniquify -> uniquify; distinct = shape+connectivity hash; "
         "non-trivial = at least one non-leaf definition shared below the top before uniquify and hierarchy depth >= 2")
 ASSUMPTIONS = ["generated names never end in _sdn_unique_<n>", "children all have a reference (well-formed netlists)"]
-REQUIRED = {"uniquified": 100, "definitions_cloned": 100, "endpoint_classes_compared": 1000}
+REQUIRED = {"uniquified": 100, "definitions_cloned": 100, "endpoint_classes_compared": 1000,
+            "histories_with_the_top_elsewhere_before": 10}
 PROBES = {}
 
 
